@@ -5,17 +5,31 @@
 D=$(cd "$1" && pwd); ID=$(basename "$D")
 WT=/tmp/mutwt-$ID-$$
 git -C /repo worktree add -q --detach "$WT" HEAD || exit 2
-cleanup() { git -C /repo worktree remove --force "$WT" >/dev/null 2>&1; }
+cleanup() { git -C /repo worktree remove --force "$WT" >/dev/null 2>&1; rm -rf "$WT"; }
 trap cleanup EXIT
 cd "$WT"
 TAGS="c08demo c13demo mutantdemo seeddemo"
+rundemo() {
+  if [ -f "$D/demo.js" ]; then
+    node "$D/demo.js" "$WT"
+  elif grep -q '^package api' "$D/demo_test.go"; then
+    cp "$D/demo_test.go" internal/app/api/zz_seed_demo_test.go
+    (cd internal/app && go test -vet=off -count=1 -tags "$TAGS" ./api/); rc=$?
+    rm -f internal/app/api/zz_seed_demo_test.go; return $rc
+  elif grep -q 'js && wasm' "$D/demo_test.go"; then
+    cp "$D/demo_test.go" ./zz_seed_demo_test.go
+    GOOS=js GOARCH=wasm go test -vet=off -count=1 -tags "$TAGS" -exec="bash $(go env GOROOT)/lib/wasm/go_js_wasm_exec" -run TestC09M2 . ; rc=$?
+    rm -f zz_seed_demo_test.go; return $rc
+  else
+    cp "$D/demo_test.go" ./zz_seed_demo_test.go
+    go test -vet=off -count=1 -tags "$TAGS" . ; rc=$?
+    rm -f zz_seed_demo_test.go; return $rc
+  fi
+}
 A=ok; git apply "$D/patch.diff" 2>/dev/null || A=FAIL
-B=ok; (go build ./... && cd internal/app && go build ./...) >/dev/null 2>&1 || B=FAIL
+B=ok; (go build ./... && GOOS=js GOARCH=wasm go build -o /dev/null ./wasm && cd internal/app && go build ./...) >/dev/null 2>&1 || B=FAIL
 S=pass; (go test -vet=off -count=1 ./... && cd internal/app && go test -vet=off -count=1 ./...) >/dev/null 2>&1 || S=FAIL
-cp "$D/demo_test.go" ./zz_seed_demo_test.go
-W=PASS; go test -vet=off -count=1 -tags "$TAGS" . >/tmp/mutwt-$ID-with.log 2>&1 || W=FAIL
-git checkout -q -- . 
-O=PASS; go test -vet=off -count=1 -tags "$TAGS" . >/tmp/mutwt-$ID-without.log 2>&1 || O=FAIL
-rm -f zz_seed_demo_test.go
+W=PASS; rundemo >/dev/null 2>&1 || W=FAIL
+git checkout -q -- .
+O=PASS; rundemo >/dev/null 2>&1 || O=FAIL
 echo "$ID apply=$A build=$B suite=$S demo_with=$W demo_without=$O"
-rm -f /tmp/mutwt-$ID-with.log /tmp/mutwt-$ID-without.log
